@@ -16,12 +16,12 @@ cd "$WT"
 res_clean="n/a"; res_mut="n/a"
 if [ -n "$DEMO" ] && [ -n "$PKG" ]; then
   cp "$D/$DEMO" "$WT/$PKG/zz_seed_demo_test.go"
-  (cd "$WT/$PKG" && go test -count=1 -run "${RUN:-.}" . >/tmp/seed_clean_$$.log 2>&1) && res_clean=pass || res_clean=FAIL
+  (cd "$WT/$PKG" && go test -tags verif -count=1 -run "${RUN:-.}" . >/tmp/seed_clean_$$.log 2>&1) && res_clean=pass || res_clean=FAIL
 fi
 if ! git apply "$D/patch.diff"; then echo "SEED $ID $(basename $D): patch does not apply"; exit 2; fi
 go build ./... >/tmp/seed_build_$$.log 2>&1 || { echo "SEED $ID $(basename $D): does not compile"; exit 2; }
 if [ -n "$DEMO" ] && [ -n "$PKG" ]; then
-  (cd "$WT/$PKG" && go test -count=1 -run "${RUN:-.}" . >/tmp/seed_mut_$$.log 2>&1) && res_mut=pass || res_mut=FAIL
+  (cd "$WT/$PKG" && go test -tags verif -count=1 -run "${RUN:-.}" . >/tmp/seed_mut_$$.log 2>&1) && res_mut=pass || res_mut=FAIL
   rm -f "$WT/$PKG/zz_seed_demo_test.go"
 fi
 # existing tests of touched packages
